@@ -21,6 +21,7 @@ const modPath = "github.com/jsightapi/jsight-schema-core"
 // repository (read through the replacements collected so far, so that a mutation
 // patch is instrumented too):
 //   - import "sync"  ->  import sync "<module>/verifshim/vsync"
+//   - import "sync/atomic"  ->  import atomic "<module>/verifshim/vatomic"
 //   - for k, v := range m (m of map type, decided by go/types)  ->
 //     for _, k := range venv.Keys(m, "file:line") { v, ok := m[k]; if !ok { continue }; ... }
 func instrument(repo, outDir string, repl map[string]string) (sites int, files int, err error) {
@@ -92,6 +93,13 @@ func instrument(repo, outDir string, repl map[string]string) (sites int, files i
 					is.Path.Value = strconv.Quote(modPath + "/verifshim/vsync")
 					if is.Name == nil {
 						is.Name = ast.NewIdent("sync")
+					}
+					changed = true
+				}
+				if is.Path.Value == `"sync/atomic"` {
+					is.Path.Value = strconv.Quote(modPath + "/verifshim/vatomic")
+					if is.Name == nil {
+						is.Name = ast.NewIdent("atomic")
 					}
 					changed = true
 				}
